@@ -850,6 +850,95 @@ def socks_jobs(tier):
     return [out[i::16] for i in range(16)]
 
 
+# ------------------------------------------------------------------ a slow consumer, half-close and bulk data the other way
+def slow_case(kind, slow, reply, bulk, resume, order):
+    """One forwarded connection with a consumer that does not read: `slow` (A = the application that connected, B =
+    the destination) stops reading; the other end sends `reply` bytes and half-closes; the slow end then uploads
+    `bulk` bytes the other way (more than half a channel window makes the far side replenish the window while the
+    near channel holds undelivered data and a pending EOF); the slow end resumes reading `resume` (before or after
+    the upload) and finally half-closes.  The relay's socket towards the slow end has a small write buffer (asyncio
+    flow control: pause_writing above 64 bytes), so the back-pressure reaches the SSH channel.
+    Everything must arrive, EOF after it, both ways; then both ends are closed and released."""
+    w = World(kind)
+    loop = w.loop
+    viol = []
+    try:
+        w.setup().connect_a()
+        loop.flush_all()
+        A, B = w.A, w.B()
+        if B is None:
+            return [('no-connection-to-destination', 'B was never connected')], 0
+        S, F = (A, B) if slow == 'A' else (B, A)            # slow end, fast end
+        relay_to_slow = S.t.peer
+        relay_to_slow.wlimit = (64, 16)
+        S.t.pause_reading()
+        rdata = msg('B', 1, reply)
+        kw = dict(order=(lambda t: -loop.transports.index(t))) if order == 'reverse' else {}
+        F.t.write(rdata[:reply // 2])
+        loop.flush_all(**kw)
+        F.t.write(rdata[reply // 2:])
+        F.t.write_eof()
+        loop.flush_all(**kw)
+        if resume == 'before-upload':
+            S.t.resume_reading()
+            loop.flush_all(**kw)
+        chunk = msg('A', 2, 32768)
+        sent = 0
+        while sent < bulk:
+            n = min(len(chunk), bulk - sent)
+            S.t.write(chunk[:n])
+            sent += n
+            loop.flush_all(horizon=200000, **kw)
+        if resume == 'after-upload':
+            S.t.resume_reading()
+            loop.flush_all(horizon=200000, **kw)
+        S.t.write_eof()
+        loop.flush_all(horizon=200000, **kw)
+        if w.pair.c._transport is None or w.pair.s._transport is None:
+            viol.append(('connection-lost', 'the SSH connection ended: client %r server %r' % (
+                getattr(w.pair.client_owner, 'lost_exc', None), getattr(w.pair.server_owner, 'lost_exc', None))))
+        if S.data != rdata:
+            viol.append(('relay-mismatch', 'the slow end received %d of %d bytes (prefix ok: %s)' % (len(S.data), len(rdata), rdata.startswith(S.data))))
+        if not S.eof and not S.lost:
+            viol.append(('eof-not-propagated', 'the slow end never saw the half-close'))
+        if len(F.data) != bulk or F.data[:32768] != chunk[:min(bulk, 32768)]:
+            viol.append(('relay-mismatch', 'the fast end received %d of %d uploaded bytes' % (len(F.data), bulk)))
+        if not F.eof and not F.lost:
+            viol.append(('eof-not-propagated', 'the fast end never saw the half-close of the upload'))
+        ra, rb = relay_side(A), relay_side(B)
+        if not viol and not (ra.closing and rb.closing):
+            viol.append(('not-closed-after-both-eof', 'A-side closed=%s B-side closed=%s' % (ra.closing, rb.closing)))
+        if not viol and (w.pair.c._channels or w.pair.s._channels):
+            viol.append(('channel-left-after-close', 'client=%r server=%r' % (list(w.pair.c._channels), list(w.pair.s._channels))))
+        if loop.unretrieved():
+            viol.append(('loop-exception', repr(loop.exc_log[0].get('exception') or loop.exc_log[0].get('message'))[:200]))
+        return viol, loop.n_writes
+    except Livelock as exc:
+        return [('livelock', str(exc))], 0
+    finally:
+        w.close()
+
+
+def slow_worker(job):
+    acc = core.Acc()
+    for case in job:
+        viol, n = slow_case(*case)
+        acc.add(core.digest(('slow',) + tuple(case)), transitions=n,
+                sample={'slow_consumer': dict(zip(('kind', 'slow_end', 'reply_bytes', 'upload_bytes', 'resumes', 'delivery_order'), case))}
+                if case[0] == 'local' and case[1] == 'A' and case[3] > 2 ** 20 and case[4] == 'after-upload' else None)
+        for k, d in viol:
+            acc.violation('forward:slow-consumer:%s:%s:%s' % (k, case[0], case[1]), '%s ; case=%r' % (d, case), {'kind': 'slow', 'case': list(case)})
+    return acc
+
+
+def slow_jobs(tier):
+    kinds = ('local', 'remote', 'local-path') if tier == 'quick' else ('local', 'remote', 'local-path', 'remote-path', 'socks5')
+    bulks = (100, 1200000) if tier == 'quick' else (100, 600000, 1200000, 2300000, 4500000)
+    cases = [(k, s, r, b, res, o) for k in kinds for s in ('A', 'B') for r in (10, 300) for b in bulks
+             for res in ('before-upload', 'after-upload') for o in ('fifo', 'reverse')]
+    return [cases[i::32] for i in range(32)]
+
+
 def main(tier, seed):
     t0 = core.now()
     kinds = ['local', 'remote', 'local-path', 'remote-path', 'socks5', 'socks4', 'socks4a']
@@ -882,6 +971,7 @@ def main(tier, seed):
     n_c = acc.evaluations - n_a - n_b
     acc.merge(core.pmap(listen_worker, listen_jobs()))
     acc.merge(core.pmap(multi_worker, multi_jobs()))
+    acc.merge(core.pmap(slow_worker, slow_jobs(tier)))
     rule = ('forwarding kinds {local, remote, local path, remote path, SOCKS5, SOCKS4, SOCKS4a} x 9 scripted '
             'conversations (duplex writes incl. 300 bytes, half-close in each order, close by either end, EOF before '
             'any data); at every point the explorer may deliver any pending pipe, run the next application action '
@@ -911,6 +1001,8 @@ def replay(rep):
         acc = perm_worker([(c[0], c[1], c[2], tuple(c[3]))])
         v = acc.violations
         print(json.dumps(v, indent=1, default=repr))
+    elif r['kind'] == 'slow':
+        acc = slow_worker([tuple(r['case'])])
     elif r['kind'] == 'multi':
         acc = multi_worker([tuple(r['case'])])
         v = acc.violations
